@@ -76,6 +76,7 @@ type vNode struct {
 	perm   uint32 // permission bits (0777) plus setuid / setgid / sticky as 04000 / 02000 / 01000
 	mtime  int64  // seconds
 	data   string
+	pad    int64 // a sparse file's size beyond its data (that many zero bytes follow; may be symbolic)
 }
 
 type vMut struct {
@@ -290,17 +291,10 @@ func vInfoOf(segs []string, idx int) vInfo {
 	}
 	n := vNodes[idx]
 	m := fs.FileMode(n.perm & 0777)
-	// bits 04000 / 02000 / 01000 of perm: setuid, setgid, sticky (Go reports them as mode flags)
+	// bits 04000 / 02000 / 01000 of perm: setuid, setgid, sticky; Go reports them as the mode flags
+	// 1<<23, 1<<22, 1<<20 (computed without branching: one path for all twelve bits)
 	if n.kind != vLink {
-		if n.perm&04000 != 0 {
-			m |= fs.ModeSetuid
-		}
-		if n.perm&02000 != 0 {
-			m |= fs.ModeSetgid
-		}
-		if n.perm&01000 != 0 {
-			m |= fs.ModeSticky
-		}
+		m |= fs.FileMode(n.perm&06000)<<12 | fs.FileMode(n.perm&01000)<<11
 	}
 	var size int64
 	switch n.kind {
@@ -313,7 +307,7 @@ func vInfoOf(segs []string, idx int) vInfo {
 	case vFifo:
 		m |= fs.ModeNamedPipe
 	default:
-		size = int64(len(n.data))
+		size = int64(len(n.data)) + n.pad
 	}
 	return vInfo{name: name, mode: m, size: size, mtime: n.mtime}
 }
@@ -619,16 +613,7 @@ func model_os_Chmod(name string, mode fs.FileMode) error {
 	}
 	vLog = append(vLog, vMut{"chmod", vCopy(p)})
 	if idx >= 0 {
-		vNodes[idx].perm = uint32(mode) & 0777
-		if mode&fs.ModeSetuid != 0 {
-			vNodes[idx].perm |= 04000
-		}
-		if mode&fs.ModeSetgid != 0 {
-			vNodes[idx].perm |= 02000
-		}
-		if mode&fs.ModeSticky != 0 {
-			vNodes[idx].perm |= 01000
-		}
+		vNodes[idx].perm = uint32(mode)&0777 | uint32(mode>>12)&06000 | uint32(mode>>11)&01000 // permission bits, setuid, setgid, sticky
 	}
 	return nil
 }
